@@ -329,11 +329,50 @@ func findNilableFields(p *core.Prog, pkgs ...string) []nilableField {
 					continue
 				}
 				// is the field assigned later in this function, with an exit between publication and assignment?
-				var later *ssa.Store
+				// assignment events after the publication: direct stores, and calls of package functions that
+				// store the field (a helper that opens the reader); a helper counts as an assignment only when
+				// every path to its normal return stores the field
+				storesField := func(f *ssa.Function) (may, must bool) {
+					if f == nil || len(f.Blocks) == 0 {
+						return false, false
+					}
+					isSt := func(x ssa.Instruction) bool {
+						s, ok := x.(*ssa.Store)
+						if !ok {
+							return false
+						}
+						fa, ok := s.Addr.(*ssa.FieldAddr)
+						return ok && core.FieldVar(fa) == fv
+					}
+					core.EachInstr(f, func(x ssa.Instruction) {
+						if isSt(x) {
+							may = true
+						}
+					})
+					if may {
+						skip, _ := core.PathQuery{Fn: f, Avoid: isSt, ExitReturnOnly: true}.Exists()
+						must = !skip
+					}
+					return
+				}
+				var later ssa.Instruction
+				mustEv := map[ssa.Instruction]bool{}
 				core.EachInstr(fn, func(j ssa.Instruction) {
-					if s, ok := j.(*ssa.Store); ok {
-						if fa, ok := s.Addr.(*ssa.FieldAddr); ok && core.FieldVar(fa) == fv && core.Reachable(fn, publish, s) {
-							later = s
+					switch x := j.(type) {
+					case *ssa.Store:
+						if fa, ok := x.Addr.(*ssa.FieldAddr); ok && core.FieldVar(fa) == fv && core.Reachable(fn, publish, x) {
+							later = x
+							mustEv[x] = true
+						}
+					case *ssa.Call:
+						callee := x.Call.StaticCallee()
+						if callee != nil && callee != fn && core.FnPkgPath(callee) == core.FnPkgPath(fn) && core.Reachable(fn, publish, x) {
+							if may, must := storesField(callee); may {
+								later = x
+								if must {
+									mustEv[x] = true
+								}
+							}
 						}
 					}
 				})
@@ -359,7 +398,7 @@ func findNilableFields(p *core.Prog, pkgs ...string) []nilableField {
 						}
 					}
 				}
-				exitBetween, _ := core.PathQuery{Fn: fn, From: publish, CutEdges: cutNN, ExitReturnOnly: true, Avoid: func(x ssa.Instruction) bool { return x == ssa.Instruction(later) }}.Exists()
+				exitBetween, _ := core.PathQuery{Fn: fn, From: publish, CutEdges: cutNN, ExitReturnOnly: true, Avoid: func(x ssa.Instruction) bool { return mustEv[x] }}.Exists()
 				if exitBetween {
 					seen[fv] = true
 					out = append(out, nilableField{named, fv, fmt.Sprintf("published at %s before %s is assigned at %s, and the function can return in between", p.Pos(publish.Pos()), fv.Name(), p.Pos(later.Pos()))})
